@@ -96,6 +96,7 @@ Example C14_nonvacuous :
   (1, 0, 0) <> (0, 0, 0) /\ Rabs 1 / 2 < Rnorm (1, 0, 0) /\ Rnorm (0, 0, 0) < Rabs 1 / 2
   /\ Rnorm (1 / 2, 0, 0) = Rabs 1 / 2 /\ 0 < Rabs 1.
 Proof. exact laws_nonvacuous. Qed.
+Print Assumptions C14_nonvacuous.
 
 (* ------------------------------------------------------------------ Polyline (closed current loops)
    The model of current_polyline_Hfield (all three sign branches) equals the textbook field of
@@ -139,3 +140,4 @@ Example C14_polyline_nonvacuous :
   let vs := ((0, 0, 0) :: (1, 0, 0) :: (0, 1, 0) :: (0, 0, 0) :: nil)%list in
   poly_clear (0, 0, 1) vs /\ hd (0, 0, 0) vs = last vs (0, 0, 0).
 Proof. exact polyline_nonvacuous. Qed.
+Print Assumptions C14_polyline_nonvacuous.
